@@ -59,7 +59,7 @@ impl<'tcx> Interp<'tcx> {
     pub fn read_ptr(&self, st: &State, p: &Ptr) -> Val {
         if p.frame == STATICS {
             let tmp = State { frames: vec![FrameSt { locals: self.statics.clone(), vers: vec![], bdefs: vec![], origin: vec![], discr: vec![] }], atoms: vec![] };
-            return tmp.read(p);
+            return tmp.read(&Ptr { frame: 0, local: p.local, proj: p.proj.clone() });
         }
         st.read(p)
     }
@@ -143,7 +143,23 @@ impl<'tcx> Interp<'tcx> {
                 let v = self.read_ptr(st, &p);
                 self.conc(st, v)
             }
-            PlaceRef::SliceView { base, start, len } => Val::Slice { base, start, len },
+            PlaceRef::SliceView { base, start, len } => {
+                // a sized array read through a sub-slice view is materialised
+                let t = place.ty(&self.stack.last().unwrap().body, self.tcx).ty;
+                if let ty::Array(_, n) = t.kind() {
+                    if let (Some(n), Some(s0)) = (self.array_len(*n), start.is_const()) {
+                        let mut arr = ArrV::uniform(Val::Bot, n);
+                        for i in 0..n {
+                            let v = self.read_ptr(st, &base.push(PElem::Index(s0 + i as i128)));
+                            arr.over.insert(i, v);
+                        }
+                        arr.compress();
+                        return Val::Arr(Rc::new(arr));
+                    }
+                    return self.top_of(t, 0);
+                }
+                Val::Slice { base, start, len }
+            }
             PlaceRef::Unknown => {
                 let t = place.ty(&self.stack.last().unwrap().body, self.tcx).ty;
                 self.top_of(t, 0)
@@ -253,7 +269,7 @@ impl<'tcx> Interp<'tcx> {
                 // remember where a scalar temp was loaded from, for refinement write-back
                 if dest.projection.is_empty() {
                     if let Operand::Copy(p) | Operand::Move(p) = op {
-                        if !p.projection.is_empty() && matches!(v, Val::Int(_)) {
+                        if (!p.projection.is_empty() || p.local != dest.local) && matches!(v, Val::Int(_)) {
                             if let PlaceRef::Mem(ptr) = self.resolve_place(st, p) {
                                 if ptr.frame != STATICS && !ptr.proj.iter().any(|e| matches!(e, PElem::IndexRange(..))) {
                                     let bv = st.frames[ptr.frame as usize].vers[ptr.local as usize];
